@@ -1,3 +1,4 @@
+from abmarl.sim import is_agent
 from abmarl.sim.gridworld.smart import SmartGridWorldSimulation
 from abmarl.sim.gridworld.agent import (
     GridObservingAgent,
@@ -42,7 +43,8 @@ class TeamBattleSim(SmartGridWorldSimulation):
                     else:
                         for attacked_agent in attacked_agents:
                             if not attacked_agent.active: # Agent has died
-                                self.rewards[attacked_agent.id] -= 1
+                                if is_agent(attacked_agent):
+                                    self.rewards[attacked_agent.id] -= 1
                                 self.rewards[agent_id] += 1
 
         # Process moves
